@@ -384,11 +384,17 @@ def _break_reset(ck, builder, methods, start_attr, END, EXT, SEG, same_class):
     found = False
     for m in methods:
         has_loop = any(isinstance(x, (ast.For, ast.While)) for x in ast.walk(m.node))
-        for pa in explore(ck, m, track_heap=not has_loop, unroll=(0,)):
+        if has_loop:
+            continue                 # the scan itself: the restart sequence is judged where it is written (or called from)
+        params_m = {V(pp.name) for pp in m.call_params()}
+        for pa in explore(ck, m, track_heap=True, unroll=(0,), follow=same_class):
             sets = {}
             for e in pa.events:
                 if e.kind == "setattr":
                     sets[e.extra["target"]] = (e.term, e.node)
+            if start_attr in sets and END in sets and EXT in sets and m.name != "__init__" and any(
+                    any(T.contains(sets[k][0], prm) for prm in params_m) for k in (start_attr, END, EXT)):
+                continue             # a helper that is told where to restart: judged through its caller, with the argument in place
             if start_attr in sets and END in sets and EXT in sets and m.name != "__init__":
                 found = True
                 want = T.p_add(END, C(1))
@@ -404,27 +410,15 @@ def _break_reset(ck, builder, methods, start_attr, END, EXT, SEG, same_class):
         raise AnalysisError(f"{builder.where}: the statement sequence that restarts the scan after a break was not found")
 
 
-def _candidate_after(ck, builder, m, SEG, depth=2):
-    """Per path of `m`: what the candidate attribute holds when the path ends - a term, or None when it is left as it was.
-    Statement-level calls of the builder's own methods are followed (they are procedures: the explorer records the call only)."""
+def _candidate_after(ck, builder, m, SEG, same_class):
+    """Per path of `m` (statement-level calls of the builder's own methods followed): what the candidate attribute holds when the
+    path ends - ("set", term), or None when the path leaves it as it was."""
     out = []
-    for pa in explore(ck, m, track_heap=True, unroll=(0,)):
+    for pa in explore(ck, m, track_heap=True, unroll=(0,), follow=same_class):
         last = None
         for e in pa.events:
             if e.kind == "setattr" and e.extra["target"] == SEG:
                 last = ("set", e.term)
-            elif e.kind == "call" and e.term[0] == "app" and depth:
-                callee = next((f for f in builder.methods.values() if f.qualname == e.term[1]), None)
-                if callee is not None and callee is not m:
-                    sub = _candidate_after(ck, builder, callee, SEG, depth - 1)
-                    kinds = {x[1] for x in sub}
-                    if kinds == {None}:
-                        continue
-                    if None in kinds:
-                        last = ("maybe", next(x[0] for x in sub if x[1] is None))       # kept on some path of the callee
-                    else:
-                        vals = {x[1][1] for x in sub}
-                        last = ("set", vals.pop()) if len(vals) == 1 else ("mixed", None)
         out.append((pa, last))
     return out
 
@@ -434,12 +428,12 @@ def _candidate_reset(ck, builder, m, start_attr, SEG, same_class):
     and the accept test read the candidate's score (C13.1): a candidate of the previous run that stays in place - it was below
     minScore, so it was not emitted - is the 'running maximum' of the next run and the score its prefixes have to beat."""
     n_paths = 0
-    for pa, last in _candidate_after(ck, builder, m, SEG):
+    for pa, last in _candidate_after(ck, builder, m, SEG, same_class):
         if not any(e.kind == "setattr" and e.extra["target"] == start_attr for e in pa.events):
             continue
         n_paths += 1
-        if last is None or last[0] == "maybe":
-            kept = last[1] if last else pa
+        if last is None:
+            kept = pa
             conds = [T.show(e.term) for e in kept.events if e.kind == "cond"] if hasattr(kept, "events") else []
             ck.violation("C13.10", f"{builder.name}:break-candidate-reset", m.where,
                          "a break ends the run: the next run starts from an empty candidate on every path (a candidate below minScore "
